@@ -103,6 +103,7 @@ func (r *spRouter) GetClosestPeers(ctx context.Context, key string) ([]peer.ID, 
 type spSend struct {
 	key, to int
 	okAddr  bool
+	at      int64 // virtual time of the send, seconds since the bubble's epoch
 }
 
 type spSender struct {
@@ -149,7 +150,7 @@ func (s *spSender) SendMessage(ctx context.Context, p peer.ID, m *pb.Message) er
 	if !known {
 		k = -1
 	}
-	s.log = append(s.log, spSend{key: k, to: spPeerNum(p), okAddr: ok})
+	s.log = append(s.log, spSend{key: k, to: spPeerNum(p), okAddr: ok, at: time.Now().Unix() - 946684800})
 	if os.Getenv("VERIF_DEBUG") != "" {
 		fmt.Fprintln(os.Stderr, "DBG send key", k, "to", spPeerNum(p), "t", time.Now().Unix()-946684800)
 	}
@@ -243,13 +244,17 @@ func spKeys(s string) []mh.Multihash {
 // observe: what was sent since the last observation, the r nearest peers of every key now, and the keys kept.
 func (w *spWorld) observe() string {
 	sends := w.sender.take()
+	now := time.Now().Unix() - 946684800
 	per := map[int]map[int]bool{}
+	at := map[int]map[int64]bool{}
 	badAddr := 0
 	for _, s := range sends {
 		if per[s.key] == nil {
 			per[s.key] = map[int]bool{}
+			at[s.key] = map[int64]bool{}
 		}
 		per[s.key][s.to] = true
+		at[s.key][s.at] = true
 		if !s.okAddr {
 			badAddr++
 		}
@@ -266,10 +271,20 @@ func (w *spWorld) observe() string {
 		}
 		return strings.Join(ss, ".")
 	}
-	var sent, near []string
+	var sent, near, times []string
 	for k := 0; k < w.nkeys; k++ {
 		if len(per[k]) > 0 {
 			sent = append(sent, fmt.Sprintf("%d:%s", k, ints(per[k])))
+			var ts []int
+			for x := range at[k] {
+				ts = append(ts, int(x))
+			}
+			sort.Ints(ts)
+			var ss []string
+			for _, x := range ts {
+				ss = append(ss, fmt.Sprint(x))
+			}
+			times = append(times, fmt.Sprintf("%d:%s", k, strings.Join(ss, ".")))
 		}
 		nm := map[int]bool{}
 		for _, p := range w.router.nearest(string(spKey(k)), w.r) {
@@ -319,8 +334,8 @@ func (w *spWorld) observe() string {
 			uncovered = append(uncovered, fmt.Sprint(k))
 		}
 	}
-	return fmt.Sprintf("set=[%s] sent=%s near=%s badaddr=%d sched=%d overlap=%d uncovered=[%s]", strings.Join(ks, ","), strings.Join(sent, "|"), strings.Join(near, "|"), badAddr,
-		len(sched), overlap, strings.Join(uncovered, ","))
+	return fmt.Sprintf("set=[%s] sent=%s near=%s badaddr=%d sched=%d overlap=%d uncovered=[%s] now=%d times=%s", strings.Join(ks, ","), strings.Join(sent, "|"), strings.Join(near, "|"), badAddr,
+		len(sched), overlap, strings.Join(uncovered, ","), now, strings.Join(times, "|"))
 }
 
 func spBits(k int) string {
@@ -438,6 +453,9 @@ func runSP(c *vu.Case) {
 			n := atoiSP(e["cycles"], 1)
 			time.Sleep(time.Duration(n)*w.I + w.delay + 5*time.Minute)
 			synctest.Wait()
+		case "sleep": // part of an interval passes (not an observation window)
+			time.Sleep(time.Duration(atoiSP(e["min"], 10)) * time.Minute)
+			synctest.Wait()
 		case "restart":
 			_ = w.api.Close()
 			if w.api != provAPI(w.prov) {
@@ -445,7 +463,6 @@ func runSP(c *vu.Case) {
 			}
 			_ = w.ks.Close()
 			synctest.Wait()
-			w.sender.take()
 			w.open()
 		}
 		c.Out = append(c.Out, w.observe())
@@ -456,14 +473,67 @@ func TestVerifC17(t *testing.T) {
 	if os.Getenv("VERIF_DEBUG") != "" {
 		_ = logging.SetLogLevel(provider.DefaultLoggerName, "debug")
 	}
-	vu.Run(t, vu.Config{Prop: "C17", QuickN: 60, ThoroughN: 2000,
+	vu.Run(t, vu.Config{Prop: "C17", QuickN: 96, ThoroughN: 2400,
 		Gen: func(r *vu.RNG, c *vu.Case) bool {
 			// Strict scenarios keep two anchor keys (ids 0 and 3: first and last quarter of the keyspace) provided from the
 			// start and never stopped, and a swarm well above the replication factor: the schedule then always holds
 			// several prefixes. (With a single scheduled prefix the provider arms its timer for exactly one interval and, in
 			// virtual time, its handler reads the clock at exactly the deadline; that exact coincidence, which a real clock
 			// does not produce, sends it down the "regions whose time passed while the timer ran" path and shifts slots.)
-			if c.Idx%8 == 5 {
+			// families by index: 0-2 general strict, 3 buffered batches, 4 relaxed, 5 growth, 6 shrink, 7 slow network,
+			// 8 and 11 restarts, 9 and 10 late starts
+			fam := c.Idx % 12
+			if fam == 8 || fam == 11 {
+				// restarts part-way through a cycle, more than once: the cycle's anchor and every region's slot must survive
+				// them (regions of more than two keys, which are reprovided as a batch)
+				nk := r.Range(48, 64)
+				var all []string
+				for i := 0; i < nk; i++ {
+					all = append(all, fmt.Sprint(i))
+				}
+				c.In = append(c.In, fmt.Sprintf("sp nkeys=%d r=%d interval=3600 swarm=%d workers=%s buffered=0 batch=1 strict=1 wait=120", nk, []int{3, 4}[r.Intn(2)], []int{48, 64}[r.Intn(2)], []string{"default", "2", "8"}[r.Intn(3)]))
+				c.In = append(c.In, "start keys="+strings.Join(all, ",")+" force=0", "advance cycles=1")
+				for i, n := 0, r.Range(3, 6); i < n; i++ {
+					c.In = append(c.In, fmt.Sprintf("sleep min=%d", r.Range(2, 55)), "restart")
+					if r.Bool() {
+						c.In = append(c.In, "advance cycles=1")
+					}
+				}
+				c.In = append(c.In, "advance cycles=1", "advance cycles=1", "advance cycles=1")
+				c.Tag("nontrivial")
+				c.Tag("restarts")
+				return true
+			}
+			if fam == 9 || fam == 10 {
+				// late starts: keys arrive one by one at arbitrary moments of the cycle, under prefixes that are not scheduled
+				// yet; the regions already scheduled around them must keep their slots
+				// (a small swarm: few, wide regions, so that the slot of a region and the slot of the half of it that holds
+				// the keys lie minutes apart; few keys at first, each alone in a region narrowed to the peers around it)
+				nk := r.Range(40, 64)
+				var first, later []string
+				for i := 4; i < nk; i++ {
+					if i%8 == 4 {
+						first = append(first, fmt.Sprint(i))
+					} else {
+						later = append(later, fmt.Sprint(i))
+					}
+				}
+				c.In = append(c.In, fmt.Sprintf("sp nkeys=%d r=3 interval=3600 swarm=%d workers=%s buffered=%d batch=1 strict=1 wait=30", nk, []int{16, 20, 24, 32}[r.Intn(4)], []string{"default", "2", "8"}[r.Intn(3)], r.Intn(2)))
+				c.In = append(c.In, "start keys=0,3 force=0", "start keys="+strings.Join(first, ",")+" force=0", "advance cycles=1")
+				for i, n := 0, r.Range(25, 45); i < n && len(later) > 0; i++ {
+					j := r.Intn(len(later))
+					c.In = append(c.In, fmt.Sprintf("sleep min=%d", r.Range(1, 12)), fmt.Sprintf("start keys=%s force=%d", later[j], r.Intn(2)))
+					later = append(later[:j], later[j+1:]...)
+					if r.Chance(1, 8) {
+						c.In = append(c.In, "advance cycles=1")
+					}
+				}
+				c.In = append(c.In, "advance cycles=1", "advance cycles=1", "advance cycles=1")
+				c.Tag("nontrivial")
+				c.Tag("late-starts")
+				return true
+			}
+			if fam == 5 {
 				// growth scenario: keys in one quarter, the swarm grows several-fold (regions split), later keys arrive
 				// in a quarter that held none, then several cycles
 				q1 := 1 + r.Intn(2)
@@ -495,7 +565,7 @@ func TestVerifC17(t *testing.T) {
 				c.Tag("growth")
 				return true
 			}
-			if c.Idx%8 == 6 {
+			if fam == 6 {
 				// shrink scenario: many keys, the swarm shrinks several-fold so that scheduled regions no longer hold r peers
 				// and merge into their parents, then several cycles
 				rf := []int{3, 4}[r.Intn(2)]
@@ -511,7 +581,7 @@ func TestVerifC17(t *testing.T) {
 				c.Tag("shrink")
 				return true
 			}
-			if c.Idx%8 == 7 {
+			if fam == 7 {
 				// slow network: every ADD_PROVIDER takes more than a second and a peer is handed many keys
 				rf := []int{2, 3}[r.Intn(2)]
 				nk := r.Range(12, 20)
@@ -529,7 +599,7 @@ func TestVerifC17(t *testing.T) {
 				c.Tag("slow-network")
 				return true
 			}
-			if c.Idx%8 == 3 {
+			if fam == 3 {
 				// the buffered wrapper: every order of start / stop / provide-once on one or two kept keys inside one batch
 				c.In = append(c.In, fmt.Sprintf("sp nkeys=8 r=%d interval=3600 swarm=%d workers=%s buffered=1 batch=8 strict=1", []int{3, 4}[r.Intn(2)], []int{16, 24}[r.Intn(2)], []string{"default", "2"}[r.Intn(2)]))
 				c.In = append(c.In, "start keys=0,3 force=0", "start keys=1,2,5 force=0", "advance cycles=1")
@@ -563,7 +633,7 @@ func TestVerifC17(t *testing.T) {
 				c.Tag("buffered-batches")
 				return true
 			}
-			strict := c.Idx%8 != 4
+			strict := fam != 4
 			nkeys := r.Range(3, 8)
 			sizes := []int{3, 4, 5, 6, 10, 12, 16, 24, 32, 48}
 			rf := []int{2, 3, 4}[r.Intn(3)]
@@ -635,6 +705,9 @@ func TestVerifC17(t *testing.T) {
 					c.In = append(c.In, "online")
 					c.In = append(c.In, "advance cycles=1")
 				case x < 13:
+					if r.Bool() {
+						c.In = append(c.In, fmt.Sprintf("sleep min=%d", r.Range(5, 50)))
+					}
 					c.In = append(c.In, "restart")
 				default:
 					c.In = append(c.In, fmt.Sprintf("advance cycles=%d", r.Range(1, 2)))
